@@ -93,6 +93,7 @@ func c12Case(kind string, p, t *ref.T) core.Verdict {
 
 func checkC12(c *core.Ctx) {
 	defer sweepC12(c)
+	defer selfCases(c, false, "loss")
 	defer soakC12(c)
 	defer gridC12C13(c, false)
 	np, nt := len(c12Preds), len(c12Targets)
